@@ -106,7 +106,7 @@ Start(t, lab) ==          \* first token of a statement, optional label in colum
   /\ ntok' = 1 /\ mode' = "tok"
   /\ UNCHANGED <<flines, logical, nst, nd, pdocs>>
 
-ContChars == {"&", "1", "$", "+", "x"}
+ContChars == {"&", "1", "$", "+", "x", "!", "9"}      \* any character but blank and zero continues a line, "!" included (it opens a comment only outside column 6)
 Between == {"none", "comment_C", "comment_star", "comment_bang", "blank_short", "blank_long"}
 BetweenLines(b) == CASE b = "none" -> <<>>
                      [] b = "comment_C" -> <<<<"C", " ", "c", "o", "m">>>>
